@@ -221,11 +221,55 @@ func vestingMonitor(w *world.World) chainsim.Monitor {
 			s.Tag("call-on-already-inconsistent-pool:" + fn + ":" + outcomeOf(s))
 			return
 		}
+		// magnitude class of the pool (the float-rounding finding concerns amounts >= 2^53 only; its keys stay as they are)
+		poolMag := ""
+		small := true
+		for _, d := range p0.Dests {
+			if uint64(d.Amount) >= 1<<53 {
+				small = false
+			}
+		}
+		if small {
+			poolMag = ":amounts<2^53"
+		}
+		// tokens vested by the exact schedule but not yet paid, per destination (floor, big integers)
+		outstanding := func(d vestingsc.VerifMiscDest) uint64 {
+			lim := scheduleCeil(uint64(d.Amount), p0.StartTime, p0.ExpireAt, now)
+			if now > p0.StartTime && now < p0.ExpireAt {
+				num := new(big.Int).Mul(new(big.Int).SetUint64(uint64(d.Amount)), big.NewInt(int64(now-p0.StartTime)))
+				lim = num.Quo(num, big.NewInt(int64(p0.ExpireAt-p0.StartTime)))
+			}
+			if lim.Cmp(new(big.Int).SetUint64(uint64(d.Vested))) <= 0 {
+				return 0
+			}
+			return new(big.Int).Sub(lim, new(big.Int).SetUint64(uint64(d.Vested))).Uint64()
+		}
+		running := now > p0.StartTime && now < p0.ExpireAt
 		switch {
+		case fn == "trigger" && caller == p0.ClientID && running:
+			// on schedule: with vested tokens outstanding (margin of 2 units for rounding) the owner's trigger pays them
+			for _, d := range p0.Dests {
+				if outstanding(d) >= 2 && !ok {
+					v("C16:owner-trigger-fails-with-vested-tokens-outstanding:"+magnitude(uint64(d.Amount)), fmt.Sprintf("trigger at t=start%+d of %d failed (err=%v, output %.160s) although %d tokens of destination %.8s (amount %d, vested %d) are due by the linear schedule",
+						now-p0.StartTime, p0.ExpireAt-p0.StartTime, s.Err, s.Txn.TransactionOutput, outstanding(d), d.ID, uint64(d.Amount), uint64(d.Vested)))
+					break
+				}
+			}
+			s.Tag("owner-trigger-while-running:" + outcomeOf(s))
+		case fn == "unlock" && caller != p0.ClientID && running:
+			for _, d := range p0.Dests {
+				if d.ID == caller && outstanding(d) >= 2 {
+					if !ok {
+						v("C16:destination-cannot-collect-vested-tokens-before-expiry:"+magnitude(uint64(d.Amount)), fmt.Sprintf("unlock by destination %.8s at t=start%+d of %d failed (err=%v, output %.160s) although %d tokens (amount %d, vested %d) are due by the linear schedule",
+							d.ID, now-p0.StartTime, p0.ExpireAt-p0.StartTime, s.Err, s.Txn.TransactionOutput, outstanding(d), uint64(d.Amount), uint64(d.Vested)))
+					}
+					s.Tag("destination-unlock-while-running-with-tokens-due:" + outcomeOf(s))
+				}
+			}
 		case fn == "delete" && caller == p0.ClientID:
 			// the owner can always delete the pool
 			if !ok {
-				v("C16:owner-cannot-delete-pool"+health, fmt.Sprintf("delete by the owner failed (err=%v): %s", s.Err, s.Txn.TransactionOutput))
+				v("C16:owner-cannot-delete-pool"+health+poolMag, fmt.Sprintf("delete by the owner failed (err=%v): %s", s.Err, s.Txn.TransactionOutput))
 			} else if post[req.PoolID] != nil {
 				v("C16:deleted-pool-still-present", "pool still in the state after a successful delete")
 			}
@@ -355,9 +399,48 @@ func vestingScenario(run *ev.Run) *scenario {
 	return sc
 }
 
+// vestingLongScenario: long-running pools with mid-magnitude amounts and long gaps without payout.
+func vestingLongScenario(run *ev.Run) *scenario {
+	sc := &scenario{}
+	sc.w = world.New(world.Options{NumClients: 4, ClientFund: 2e17, SC: map[string]any{
+		"smart_contracts.vestingsc.min_duration": "1s", "smart_contracts.vestingsc.max_duration": "2000h",
+		"smart_contracts.vestingsc.min_lock": units(1)}})
+	w := sc.w
+	const day = 86400
+	sc.roots = [][]chainsim.Action{
+		{addPool(w, "c0", [][2]any{{"c1", uint64(1e15)}, {"c2", uint64(1e13)}}, 5, 0, 40*day, "[L1:1e15+1e13,excess5,40d]")},
+		{addPool(w, "c0", [][2]any{{"c1", uint64(1e13)}, {"c2", uint64(1e13)}}, 0, 0, 45*day, "[L2:1e13+1e13,45d]")},
+		{addPool(w, "c0", [][2]any{{"c1", uint64(1e17)}}, 1, 0, 40*day, "[L3:1e17,excess1,40d]")},
+		{addPool(w, "c0", [][2]any{{"c1", uint64(1e15)}}, 0, 1, 12*3600, "[L4:1e15,start+1,12h]")},
+	}
+	tick := send(w, "c3", "c0", 1, 0)
+	sc.acts = []chainsim.Action{
+		poolOp(w, "c0", "trigger", 0, "", ""),
+		poolOp(w, "c1", "unlock", 0, "", ""),
+		poolOp(w, "c2", "unlock", 0, "", ""),
+		poolOp(w, "c0", "stop", 0, "c1", ",dest=c1"),
+		poolOp(w, "c0", "delete", 0, "", ""),
+		withDt(tick, 3600),
+		withDt(tick, 6*3600),
+		withDt(tick, 30*day),
+	}
+	if run.Thorough() {
+		sc.acts = append(sc.acts, poolOp(w, "c0", "unlock", 0, "", ",owner"), withDt(poolOp(w, "c1", "unlock", 0, "", ""), 6*3600), withDt(tick, 10*day))
+	}
+	sc.dq, sc.dt = 4, 5
+	sc.rule = "long-running pools (1e15+1e13 over 40 d with excess; 1e13+1e13 over 45 d; 1e17 over 40 d; 1e15 over 12 h with delayed start) and clock steps of 1 h, 6 h and 30 d between operations, so that destinations go without payout for long stretches: BFS over {trigger, unlock by each destination, stop, delete, ticks}; same per-destination oracle as part chain plus: while the pool is running, the owner's trigger and a destination's unlock succeed whenever at least 2 tokens are due by the exact linear schedule, and the owner's delete always succeeds"
+	return sc
+}
+
 func c16(run *ev.Run) {
 	if a := argsAfterTier(); len(a) > 0 && a[0] == "arith" {
 		c16arith(run)
+		return
+	}
+	if a := argsAfterTier(); len(a) > 0 && a[0] == "long" {
+		sc := vestingLongScenario(run)
+		run.Rule = sc.rule
+		explore(run, sc.w, sc.acts, sc.roots, run.Pick(sc.dq, sc.dt), false, 50, 780, vestingMonitor(sc.w))
 		return
 	}
 	sc := vestingScenario(run)
